@@ -25,6 +25,11 @@ CLAIMS = {
   note="container/list is trusted as an abstract sequence (ghost heaps); onEvict assumed not to touch the cache; the byte-size bound (currentSize <= maxSize) is NOT proved (needs an inductive sum; the in-place update path is observed to exceed it); DeleteByTag, the cleanup ticker and HTTPCache are not under contract. One genuine defect (Set never returns for capacity 0 / oversize value) was found by the decreases obligation and repaired.",
   technique="contract-based deductive verification: monitor invariant on the mutex, ghost sequence model of container/list, loop variants, WP over go/ssa, z3/cvc5",
   design="§5 C20"),
+ "C11": dict(
+  text="Deductive proof of the token-bucket step relation of the real per-request closure (one critical section under the captured mutex): level after refill = min(Burst, tokens + add) when add > 0, lastRefill reset exactly then, admitted iff that level >= 1 and then decremented by exactly one, rejected requests answered 429 without calling the wrapped handler (ghost call counter), every other client's entry untouched, entries distinct and never above Burst; plus a ghost lemma (pure SMT over that step relation, potential min(B, tokens + r*(t-lastRefill))) giving at most B + r*T admissions per client in any interval of length T; getClientIP proved to ignore forwarding headers unless trustProxy; the declared-limit conversion is checked per window unit against 'bucket of N refilled at N per window'.",
+  note="Float refill treated as exact real floor in the lemma (uninterpreted in the code-level contract); mathematical integers (mathint) in the closure and the conversion; invariant over the captured map assumed at entry / re-proved at Unlock; cleanup goroutine not under contract; 'a client within the rate is never rejected' not decided. Five recorded findings: N/sec, N/hour, N/day are converted to buckets of 60N / ceil(N/60) / ceil(N/1440) and rounded-up per-minute rates (pinned by an existing test, hence recorded rather than repaired).",
+  technique="contract-based deductive verification: at-unlock assertions + ghost call counter over go/ssa WP, ghost SMT lemma for the history bound, call-site preconditions for the conversion",
+  design="§5 C11"),
 }
 
 def main():
